@@ -41,8 +41,9 @@ class TurnBasedManager(SimulationManager):
         wrapper returns all done.
         """
         agent_id = next(iter(action_dict))
-        assert agent_id not in self.done_agents, \
-            "Received an action for an agent that is already done."
+        for agent_id in action_dict:
+            assert agent_id not in self.done_agents, \
+                "Received an action for an agent that is already done."
         self.sim.step(action_dict, **kwargs)
 
         obs, rewards, dones, infos = {}, {}, {'__all__': self.sim.get_all_done()}, {}
